@@ -90,8 +90,9 @@ def _maps_inverse(ctx, name, a2b, b2a):
     return ok
 
 
-def _boundary_enable(ctx, m, ref, V):
-    ok, _ = ctx.call("enable_boundary_connectivity", m.enable_boundary_connectivity, monitor="boundary")
+def _boundary_enable(ctx, m, ref, V, again=False):
+    if not again:
+        ok, _ = ctx.call("enable_boundary_connectivity", m.enable_boundary_connectivity, monitor="boundary")
     bc = m.boundary_connectivity
     bm = m.boundary_mesh
     if not ctx.check(bm is not None and bc is not None, "boundary", "enable", "no_boundary_mesh", "boundary_mesh is None after enable_boundary_connectivity"):
@@ -297,6 +298,15 @@ def run_case(desc, ctx):
                     _boundary_enable(ctx, m, ref, V)
                 else:
                     _boundary_standalone(ctx, m, ref, V, desc["orient"])
+            if j == 0 and desc["seed"] % 4 == 1:
+                # history: two live volumes.  Another mesh (other cells, other numbering) gets its boundary connectivity while this one is alive;
+                # the maps and boundary answers of this one are then read again (without enabling again)
+                ctx.cls("history:boundary_of_another_live_volume_enabled_in_between")
+                _boundary_enable(ctx, m, ref, V)
+                zo = volumes.make(desc["seed"] ^ 0x2b2b, max_size=2)
+                ok, other = ctx.call("construct", build.volume, zo["V"], zo["C"], "list", desc["irows"])
+                ctx.call("enable_boundary_connectivity", other.enable_boundary_connectivity, monitor="boundary")
+                _boundary_enable(ctx, m, ref, V, again=True)
             if desc["orders"] == 1:
                 # single-order cases (big and refined meshes): both ways of extracting the boundary are exercised on the one object
                 _boundary_standalone(ctx, m, ref, V, desc["orient"])
